@@ -187,6 +187,14 @@ impl Point {
             let s2 = y2_z1.fp_mul(&z1_sqr);
             let h = u2.fp_sub(&u1);
             let r = s2.fp_sub(&s1);
+            // same x: either the same point in another Jacobian representation, or opposite points
+            if h.is_zero() {
+                return if r.is_zero() {
+                    self.point_dbl()
+                } else {
+                    Point::zero()
+                };
+            }
             let hh = h.fp_sqr();
             let hhh = hh.fp_mul(&h);
             let v = u1.fp_mul(&hh);
